@@ -59,7 +59,8 @@ let parse_op (s : string) : op =
 let show_conns l = String.concat "," (List.map (fun c -> Printf.sprintf "%d/%d" (int_of_n c.c_id) (int_of_nat c.c_tok)) l)
 
 let show_event = function
-  | EvDispatch (c, tok, g, idx) -> Some (Printf.sprintf "D%d/%d>%d" (int_of_n c) (int_of_nat tok) (int_of_nat g))
+  | EvSkip (_, _, _) -> None
+  | EvDispatch (c, tok, g, idx, _) -> Some (Printf.sprintf "D%d/%d>%d" (int_of_n c) (int_of_nat tok) (int_of_nat g))
   | EvDropNoWorker c -> None
   | EvFaulted idx -> Some (Printf.sprintf "F%d" (int_of_n idx))
   | EvConnFail (c, tok) -> Some (Printf.sprintf "X%d/%d" (int_of_n c) (int_of_nat tok))
